@@ -205,6 +205,8 @@ def matching_case(ctx, k, rng):
     which = "bottleneck" if rng.random() < 0.5 else "wasserstein"
     scale = float(rng.choice([0.01, 1, 1, 10]))
     top = 31 if rng.random() < 0.2 else 9
+    if rng.random() < 0.02:
+        top = 140
     m, n = int(rng.integers(0, top)), int(rng.integers(0, top))
     if m == 0 and n == 0:
         m = 2
